@@ -27,10 +27,10 @@ type memFS struct {
 	log  *evLog
 	// fault/gating
 	mu          sync.Mutex
-	walkFailAt  int           // fail the walk at entry k (1-based; 0 = never)
-	readFailKey string        // path whose read fails ...
-	readFailOff int           // ... after this many bytes
-	readSizes   []int         // cyclic schedule of read sizes (0 = whatever fits)
+	walkFailAt  int    // fail the walk at entry k (1-based; 0 = never)
+	readFailKey string // path whose read fails ...
+	readFailOff int    // ... after this many bytes
+	readSizes   []int  // cyclic schedule of read sizes (0 = whatever fits)
 	readN       int
 	openGate    func(string) // called in Open (may block)
 }
@@ -100,7 +100,7 @@ func (fs *memFS) Walk(ctx context.Context, target string, fn gofs.WalkDirFunc) e
 	if target == "" {
 		target = "."
 	}
-	skipPrefix := ""   // skipping everything under this dir
+	skipPrefix := ""    // skipping everything under this dir
 	skipDirOf := "\x00" // skipping the rest of this directory ("" = root)
 	for k, e := range fs.ents {
 		p := e.st.Path
